@@ -55,7 +55,13 @@ impl TraceOut {
         self.scenarios += 1;
         // index: shard, first line (1-based) of the scenario, name
         writeln!(self.index, "{}\t{}\t{}", self.cur, self.lines[self.cur] + 1, scn).unwrap();
+        // what has been logged so far reaches the disk before the next scenario starts, so that the
+        // orchestrator can tell which scenario was running if the process is killed (undefined
+        // behaviour in the code under test caught by std's precondition checks, a segfault ...)
+        self.index.flush().unwrap();
         self.ev(json!({"ev": "Reset", "scn": scn}));
+        let w = &mut self.shards[self.cur];
+        w.flush().unwrap();
     }
 
     pub fn ev(&mut self, v: Value) {
